@@ -21,6 +21,7 @@ from .resolver_map import ResolverMap
 from .scalars import SPECIFIED_SCALAR_TYPES
 from .types import (
     Directive,
+    EnumType,
     GraphQLAbstractType,
     GraphQLType,
     InputObjectType,
@@ -551,7 +552,7 @@ class Schema(ResolverMap):
 
         cloned._replace_types_and_directives(
             types={
-                t.name: copy.copy(t)
+                t.name: _clone_type(t)
                 for t in self.types.values()
                 if (
                     t not in SPECIFIED_SCALAR_TYPES
@@ -559,7 +560,7 @@ class Schema(ResolverMap):
                 )
             },
             directives={
-                d.name: copy.copy(d)
+                d.name: _clone_directive(d)
                 for d in self.directives.values()
                 if d not in SPECIFIED_DIRECTIVES
             },
@@ -568,6 +569,34 @@ class Schema(ResolverMap):
         cloned.merge_resolvers(self)
 
         return cloned
+
+
+def _clone_field(field):
+    cloned = copy.copy(field)
+    cloned.arguments = [copy.copy(a) for a in field.arguments]
+    return cloned
+
+
+def _clone_type(type_: NamedType) -> NamedType:
+    # Members are copied as well: healing type references updates fields,
+    # arguments and input fields in place and must not reach the source schema.
+    cloned = copy.copy(type_)
+    if isinstance(cloned, (ObjectType, InterfaceType)):
+        cloned.fields = [_clone_field(f) for f in type_.fields]  # type: ignore
+    elif isinstance(cloned, InputObjectType):
+        cloned.fields = [copy.copy(f) for f in type_.fields]  # type: ignore
+    elif isinstance(cloned, EnumType):
+        cloned._set_values(
+            [copy.copy(v) for v in type_.values]  # type: ignore
+        )
+    return cloned
+
+
+def _clone_directive(directive: Directive) -> Directive:
+    cloned = copy.copy(directive)
+    cloned.arguments = [copy.copy(a) for a in directive.arguments]
+    cloned.argument_map = {a.name: a for a in cloned.arguments}
+    return cloned
 
 
 def _build_directive_map(maybe_directives: List[Any]) -> Dict[str, Directive]:
